@@ -515,6 +515,19 @@ def _c_lists(chk, tier):
         Il, imax = ip().call_function(PO, "_polynomial_integrate", [Pi, var, MD - 1, psi, clmo, psi, clmo, enc])
         diff = sp.expand(sp.diff(pr.list_to_expr(Il, clmo), X[var]) - pr.list_to_expr(Pi, clmo))
         chk.check(diff == 0 and int(S(imax)) == MD, "C06.c", f"{PO}::_polynomial_integrate[var={var}]", f"list-level integral wrong: {str(diff)[:160]}", sample=f"int dx{var}")
+    # the documented interface: input tables built for exactly the input degree, output tables for one degree more.  Every table read must stay inside
+    # the table it is made on (an out-of-range read in a compiled kernel is silent garbage: here the size of the result block)
+    psi_in, clmo_in, enc_in = pr.tables(2)
+    psi_out, clmo_out, enc_out = pr.tables(3)
+    Pexact = [pr.generic_arr("i", d, psi_in, {2: {1, 7}}.get(d, set())) for d in range(3)]
+    try:
+        Il, imax = ip().call_function(PO, "_polynomial_integrate", [Pexact, 0, 2, psi_in, clmo_in, psi_out, clmo_out, enc_out])
+        diff = sp.expand(sp.diff(pr.list_to_expr(Il, clmo_out), X[0]) - pr.list_to_expr(Pexact, clmo_in))
+        ok, why = diff == 0 and int(S(imax)) == 3, f"d/dx0 of the result differs from the input: {str(diff)[:120]}"
+    except OutsideFragment as exc:
+        ok, why = False, f"a table is read outside its range ({str(exc)[:140]})"
+    chk.check(ok, "C06.c", f"{PO}::_polynomial_integrate[tables of exactly the input degree]",
+              f"with index tables built for the input degree (2) and result tables for degree 3, as the signature documents: {why}", sample="input tables of degree 2, result tables of degree 3: exact integral")
     for scale in (sp.Integer(1), sp.Integer(-1), sp.Symbol("alpha")):
         P2 = [a.copy() for a in P]
         ip().call_function(PO, "_polynomial_add_inplace", [P2, Q, scale, MD])
